@@ -1,25 +1,26 @@
 // gvh-flags — dynamic tie of C08 (compliance flags gate every Go function).
 //
-//   gvh-flags enum <sentinel dir>
-//       builds a runtime with the whole standard library and lists every Go function
-//       reachable from _G (hence package.loaded), the string and file metatables, the
-//       context/resources metatables and the iterator factories:
-//         F <hex Lua expression that evaluates to it> <Go function name> <name given to Lua> <declared flags>
-//       (the declared flags, the name and the Go function are read from the GoFunction
-//       value itself by reflection — no hook in /repo needed)
+//	gvh-flags enum <sentinel dir>
+//	    builds a runtime with the whole standard library and lists every Go function
+//	    reachable from _G (hence package.loaded), the string and file metatables, the
+//	    context/resources metatables and the iterator factories:
+//	      F <hex Lua expression that evaluates to it> <Go function name> <name given to Lua> <declared flags>
+//	    (the declared flags, the name and the Go function are read from the GoFunction
+//	    value itself by reflection — no hook in /repo needed)
 //
-//   gvh-flags run <sentinel dir>
-//       the "lua" engine of hx (one fresh runtime per case, same line protocol) with
-//       stdin detached from the case stream, the working directory set to the sentinel
-//       directory, and a digest of that directory appended to every result line:
-//         <id> <status> T:.. R:.. E:.. O:.. X:.. S:<digest>
-//       when the digest changed the sentinel is restored before the next case.
+//	gvh-flags run <sentinel dir>
+//	    the "lua" engine of hx (one fresh runtime per case, same line protocol) with
+//	    stdin detached from the case stream, the working directory set to the sentinel
+//	    directory, and a digest of that directory appended to every result line:
+//	      <id> <status> T:.. R:.. E:.. O:.. X:.. S:<digest>
+//	    when the digest changed the sentinel is restored before the next case.
 package main
 
 import (
 	"bufio"
 	"crypto/sha256"
 	"encoding/hex"
+	"errors"
 	"fmt"
 	"os"
 	"path/filepath"
@@ -34,6 +35,7 @@ import (
 	"github.com/arnodel/golua/lib"
 	"github.com/arnodel/golua/lib/golib"
 	rt "github.com/arnodel/golua/runtime"
+	"github.com/arnodel/golua/safeio"
 )
 
 const canary = "canary-content\n"
@@ -229,6 +231,73 @@ func enum(out *bufio.Writer) {
 	}
 }
 
+// safeioSweep calls the four safeio entry points directly (Go API) inside Thread.CallContext with and without the
+// iosafe requirement, for EVERY flag word os.OpenFile distinguishes here: 3 access modes x all subsets of
+// {O_CREATE, O_TRUNC, O_APPEND, O_EXCL, O_SYNC}, on an existing and on a new name.
+//
+//	G <required flags> <operation> <flag word hex> <name> refused|performed|oserror:<msg> <1 if the sentinel changed>
+func safeioSweep(out *bufio.Writer, dir string) {
+	r := rt.New(nil)
+	cleanup := lib.LoadAll(r)
+	defer cleanup()
+	t := r.MainThread()
+	classify := func(err error) string {
+		switch {
+		case err == nil:
+			return "performed"
+		case errors.Is(err, safeio.ErrNotAllowed):
+			return "refused"
+		}
+		return "oserror:" + strings.ReplaceAll(err.Error(), " ", "_")
+	}
+	opts := []int{os.O_CREATE, os.O_TRUNC, os.O_APPEND, os.O_EXCL, os.O_SYNC}
+	for _, req := range []rt.ComplianceFlags{0, rt.ComplyIoSafe, rt.ComplyIoSafe | rt.ComplyCpuSafe | rt.ComplyMemSafe | rt.ComplyTimeSafe} {
+		t.CallContext(rt.RuntimeContextDef{RequiredFlags: req}, func() error {
+			line := func(op string, flag int, name string, err error, base string) {
+				ch := 0
+				if digest(dir) != base {
+					ch = 1
+				}
+				fmt.Fprintf(out, "G %d %s %x %s %s %d\n", req, op, flag, name, classify(err), ch)
+			}
+			for _, acc := range []int{os.O_RDONLY, os.O_WRONLY, os.O_RDWR} {
+				for mask := 0; mask < 1<<len(opts); mask++ {
+					flag := acc
+					for i, o := range opts {
+						if mask&(1<<i) != 0 {
+							flag |= o
+						}
+					}
+					for _, name := range []string{"canary", "gvnew"} {
+						restore(dir)
+						base := digest(dir)
+						f, err := safeio.OpenFile(r, name, flag, 0o644)
+						if f != nil {
+							f.Close()
+						}
+						line("OpenFile", flag, name, err, base)
+					}
+				}
+			}
+			restore(dir)
+			base := digest(dir)
+			f, err := safeio.TempFile(r, ".", "gvtmp")
+			if f != nil {
+				f.Close()
+			}
+			line("TempFile", 0, "gvtmp", err, base)
+			restore(dir)
+			base = digest(dir)
+			line("RemoveFile", 0, "canary", safeio.RemoveFile(r, "canary"), base)
+			restore(dir)
+			base = digest(dir)
+			line("RenameFile", 0, "canary", safeio.RenameFile(r, "canary", "canary2"), base)
+			restore(dir)
+			return nil
+		})
+	}
+}
+
 func main() {
 	if len(os.Args) < 3 {
 		fmt.Fprintln(os.Stderr, "usage: gvh-flags enum|run <sentinel dir>")
@@ -256,6 +325,8 @@ func main() {
 	switch os.Args[1] {
 	case "enum":
 		enum(out)
+	case "safeio":
+		safeioSweep(out, dir)
 	case "run":
 		in := bufio.NewScanner(caseIn)
 		in.Buffer(make([]byte, 1<<20), 1<<26)
